@@ -365,8 +365,10 @@ class PyCParser(ParserInterface):
         with open(file_name, "r+") as cfile:
             c_prog = cfile.read()
 
-        # apply preprocessing steps
-        preprocessed = PyCParser.add_attr_x(c_prog)
+        # apply preprocessing steps (the inserted #define needs the C
+        # pre-processor: pycparser alone rejects directives)
+        preprocessed = PyCParser.add_attr_x(c_prog) \
+            if kwargs.get('use_cpp', False) else c_prog
         # convert to byte string
         prog_bytes = str.encode(preprocessed)
 
